@@ -905,6 +905,13 @@ class Engine:
             st.env[tgt.id] = v
             if isinstance(node, ast.Name) and isinstance(v, (VSet, VList, VDict)):
                 raise Unsupported("aliasing a mutable container (%s = %s)" % (tgt.id, node.id), tgt)
+            # x = obj.field / x = d[k]: the local names the SAME container object; a later in-place mutation of x must
+            # reach that holder too (python aliasing), see store_back
+            if isinstance(node, (ast.Attribute, ast.Subscript)) and isinstance(v, (VSet, VList, VDict)):
+                st.alias = dict(st.alias)
+                st.alias[tgt.id] = node
+            elif tgt.id in st.alias:
+                st.alias = {k: a for k, a in st.alias.items() if k != tgt.id}
             return [(st, None)]
         if isinstance(tgt, (ast.Tuple, ast.List)):
             if isinstance(v, VTuple):
@@ -964,6 +971,16 @@ class Engine:
         """write an updated container back to the l-value expression it was read from."""
         if isinstance(lv, ast.Name):
             st.env[lv.id] = newval
+            holder = st.alias.get(lv.id)
+            if holder is not None:
+                h2 = copy.copy(holder)
+                h2.ctx = ast.Store()
+                out = []
+                for (s1, o) in self.assign(h2, newval, st, None):
+                    s1.alias = dict(s1.alias)
+                    s1.alias[lv.id] = holder  # writing the holder must not drop the alias
+                    out.append((s1, o))
+                return out
             return [(st, None)]
         if isinstance(lv, ast.Attribute):
             lv2 = copy.copy(lv)
